@@ -61,7 +61,7 @@ class FuncInfo:
 
     def loc(self, node: ast.AST | None = None) -> str:
         n = node if node is not None else self.node
-        return f"{self.module.relpath}:{getattr(n, 'lineno', 0)}"
+        return f"{self.module.relpath}:{self.module.line(n)}"
 
     def __hash__(self):
         return hash(self.qualname)
@@ -107,6 +107,14 @@ class ModuleInfo:
     classes: dict[str, ClassInfo] = field(default_factory=dict)
     assigns: dict[str, ast.AST] = field(default_factory=dict)
     parents: dict[ast.AST, ast.AST] = field(default_factory=dict)
+    # new line -> original line when the module was rewritten by unbundle.py
+    line_map: dict[int, int] | None = None
+
+    def line(self, node) -> str:
+        ln = getattr(node, "lineno", 0)
+        if self.line_map is None:
+            return str(ln)
+        return f"{self.line_map.get(ln, ln)}~"
 
     def __hash__(self):
         return hash(self.name)
@@ -184,8 +192,15 @@ class Repo:
         return mod
 
     def _load(self):
+        from .unbundle import unbundle
+
         h = hashlib.sha256()
-        for rel, src in self._iter_files():
+        sources = dict(self._iter_files())
+        # scalar replacement of private aggregates (see unbundle.py); a no-op
+        # on the pinned tree
+        rewritten, self.unbundle_notes, line_maps = unbundle(sources)
+        sources.update(rewritten)
+        for rel, src in sources.items():
             h.update(rel.encode())
             h.update(b"\0")
             h.update(src.encode())
@@ -195,6 +210,7 @@ class Repo:
             except SyntaxError as e:
                 raise AnalysisError(f"syntax error in {rel}: {e}") from e
             mi = ModuleInfo(self._modname(rel), rel, src, tree)
+            mi.line_map = line_maps.get(rel)
             for parent in ast.walk(tree):
                 for child in ast.iter_child_nodes(parent):
                     mi.parents[child] = parent
@@ -499,6 +515,25 @@ class Repo:
 
     def func_of_node(self, node: ast.AST) -> FuncInfo | None:
         return self._func_by_node.get(id(node))
+
+    def exported_names(self) -> set[str]:
+        """Bare names re-exported by some package ``__init__`` (the public
+        surface); a module-level function whose name is not among them is an
+        internal helper however it is spelt."""
+        if getattr(self, "_exported", None) is None:
+            out: set[str] = set()
+            for mi in self.modules.values():
+                if not self._is_pkg(mi):
+                    continue
+                for local, (src, attr) in mi.imports.items():
+                    out.add(local)
+                    if attr:
+                        out.add(attr)
+                allv = mi.assigns.get("__all__")
+                if isinstance(allv, (ast.List, ast.Tuple)):
+                    out |= {e.value for e in allv.elts if isinstance(e, ast.Constant) and isinstance(e.value, str)}
+            self._exported = out
+        return self._exported
 
     def all_functions(self) -> list[FuncInfo]:
         return sorted(self.functions.values(), key=lambda f: f.qualname)
